@@ -192,6 +192,31 @@ pub fn tag_set(max: usize) -> BoxedStrategy<Vec<u8>> {
   .boxed()
 }
 
+/// The list handed to `Server::new` for a tag set: for about a third of the sets (a pure
+/// function of the set, so replay and shrinking are unaffected) the list is reordered and
+/// names some tags more than once.  Registering a tag twice registers it.
+pub fn registration_list(mds: &[u8]) -> Vec<u8> {
+  if mds.is_empty() {
+    return vec![];
+  }
+  let mut h: u64 = 0xcbf2_9ce4_8422_2325;
+  for b in mds {
+    h = (h ^ *b as u64).wrapping_mul(0x0000_0100_0000_01b3);
+  }
+  match h % 3 {
+    0 => {
+      let mut v: Vec<u8> = mds.iter().rev().cloned().collect();
+      let a = mds[(h >> 8) as usize % mds.len()];
+      let b = mds[(h >> 24) as usize % mds.len()];
+      v.insert(0, a);
+      v.push(b);
+      v.push(a);
+      v
+    }
+    _ => mds.to_vec(),
+  }
+}
+
 pub fn pick_tag(mds: &[u8], sel: u16) -> u8 {
   mds[idx(sel, mds.len())]
 }
